@@ -268,11 +268,13 @@ class DataConnection(Connection, abc.ABC):
         if self.state in (ConnectionState.CLOSED, ConnectionState.CLOSING):
             return
 
-        await self.set_state(ConnectionState.CLOSING, close_reason=reason)
-        adapter.debug("disconnecting : %s", reason.name, extra=self.__dict__)
-        self._cancel_queued_messages()
+        writer_closed = False
         try:
+            await self.set_state(ConnectionState.CLOSING, close_reason=reason)
+            adapter.debug("disconnecting : %s", reason.name, extra=self.__dict__)
+            self._cancel_queued_messages()
             if self._writer is not None:
+                writer_closed = True
                 if not self._writer.is_closing():
                     self._writer.close()
 
@@ -284,6 +286,12 @@ class DataConnection(Connection, abc.ABC):
                 "exception while disconnecting : %r", exc, extra=self.__dict__)
 
         finally:
+            # The task could have been cancelled before the writer was closed
+            # (f.e. while the listeners were handling the CLOSING state): the
+            # connection should never be left in the CLOSING state
+            if not writer_closed and self._writer is not None:
+                self._writer.close()
+
             try:
                 # The task running this method can get cancelled by the handling
                 # of the CLOSING state (queued message, server ping, wishlist
